@@ -65,9 +65,9 @@ CHECK_DEADLOCK FALSE
 TRACE_CFG = 'CONSTANTS Dev = {}\nINIT TInit\nNEXT TNext\nCHECK_DEADLOCK FALSE\n'
 
 
-def run(prop, tier, seed, replay=None):
+def run(prop, tier, seed, replay=None, rep=None, finish=True):
     mods = treeio.repo_modules()
-    rep = core.Report(prop, tier, seed)
+    rep = rep or core.Report(prop, tier, seed)
     with core.Work('sp') as w:
         cases = []
         if replay:
@@ -115,4 +115,6 @@ def run(prop, tier, seed, replay=None):
                     'non-trivial = accepted specification of more than one part')
         rep.samples = cases[:2] + cases[-1:]
         rep.assumptions = ['TLC exact integer arithmetic is the oracle for floor(p*size/100)']
+        if not finish:
+            return byid
         return rep.finish(byid)
